@@ -652,8 +652,23 @@ def reachable_panics(a, checks=True):
     (split_at: mid <= len; Option / Result unwrap / expect: the right variant; slice indexing by a number: index < len). -> list of strings"""
     from .poly import prove as _prove, Poly as _Pl
     out = []
+    from .poly import UMAX as _UM
     for x in (getattr(a, "asserts", []) if checks else []):
         if not x["cleanup"] and not _prove((">=", _Pl.const(-1)), a.poly_facts(x["fail_facts"])):
+            # an overflow check of usize arithmetic whose mathematical result provably fits cannot fail: a + b <= usize::MAX (every usize
+            # quantity is bounded by it), a - b >= 0, a * b <= usize::MAX
+            c = x["cond"]
+            if c[0] == "B" and isinstance(c[1], tuple) and c[1][0] == "opaque" and isinstance(c[1][1], tuple) and c[1][1][0] == "ovf":
+                oo = getattr(a, "ovf_ops", {}).get(c[1][1][1])
+                if oo is not None and oo[1] is not None and oo[2] is not None and oo[3] in ("usize", "u64"):
+                    pf = a.poly_facts(x["facts"])
+                    if oo[0] == "Sub":
+                        fits = _prove((">=", oo[1] - oo[2]), pf)
+                    else:
+                        r_ = oo[1] + oo[2] if oo[0] == "Add" else oo[1] * oo[2]
+                        fits = _prove((">=", _Pl.atom(_UM) - r_), pf)
+                    if fits:
+                        continue
             out.append("check `%s` can fail" % (x["msg"] or "assert")[:60])
     for c in a.calls:
         if a.blocks[c.bb]["cleanup"]:
